@@ -341,6 +341,7 @@ PROPS["C16"] = {
             {"name": "sender", "run": "^TestSenderFaults$", "checks": 96, "shards": 16},
             {"name": "socket", "run": "^TestSocketBackends$", "checks": 960, "shards": 8},
             {"name": "sharedtransport", "run": "^TestBackendsShareTransport$", "checks": 48, "shards": 16, "shrinktime": "1s"},
+            {"name": "largepayload", "run": "^TestLargePayloadsKeepRequestSlots$", "checks": 160, "shards": 8, "shrinktime": "1s"},
         ],
         "thorough": [
             {"name": "enumeration", "kind": "plain", "run": "^TestHTTPFaultEnumeration$", "shards": 8, "timeout": 2400},
@@ -348,6 +349,7 @@ PROPS["C16"] = {
             {"name": "sender", "run": "^TestSenderFaults$", "checks": 3200, "shards": 16, "timeout": 1700},
             {"name": "socket", "run": "^TestSocketBackends$", "checks": 32000, "shards": 8, "timeout": 1700},
             {"name": "sharedtransport", "run": "^TestBackendsShareTransport$", "checks": 1600, "shards": 16, "shrinktime": "1s", "timeout": 1700},
+            {"name": "largepayload", "run": "^TestLargePayloadsKeepRequestSlots$", "checks": 1600, "shards": 16, "shrinktime": "1s", "timeout": 1700},
         ],
     },
     "assumptions": [
